@@ -30,7 +30,7 @@ IMPORTS = "From DJC Require Import Lib.Base Lexer.Model Stock.Model."
 UTIL = os.path.join(os.path.dirname(os.path.abspath(__file__)), "c10_util.py")
 WORKDIR = os.path.join(C.WORK, "C10")
 TRIGGER_SHARED = "c10-blockcontext-shared"
-TRIGGER_LAYER = "c10-slot-render-layer"
+TRIGGER_LAYER = "c10-block-in-slot-default"
 
 
 # ---------------------------------------------------------------------------------------------
@@ -372,6 +372,8 @@ def part_b2(chk, thorough):
             stats["in_slot_layer_class"] = stats.get("in_slot_layer_class", 0) + 1
         if not trig and not trig2:
             stats["outside_both_classes"] = stats.get("outside_both_classes", 0) + 1
+            if U.deep_slot_fill_class(fp):
+                stats["block_in_fill_of_deep_slot_strict"] = stats.get("block_in_fill_of_deep_slot_strict", 0) + 1
         if fam_out != flat_out:
             replay = {"part": "b2", "fp": fp, "flat": U.norm(c["flat"]), "page_named": c["page_named"], "leaf_named": c["leaf_named"],
                       "family_output": fam_out, "flattened_output": flat_out, "trigger_detail": [trig, trig2], "corpus_file": c.get("corpus_file")}
@@ -381,8 +383,8 @@ def part_b2(chk, thorough):
                          "family renders differently from the flattened program", replay)
             elif trig2:
                 stats["slot_layer_reproduced"] = stats.get("slot_layer_reproduced", 0) + 1
-                chk.fail(TRIGGER_LAYER, "block tag rendered through a slot on the wrong render-context layer: family renders differently from "
-                         "the flattened program", replay)
+                chk.fail(TRIGGER_LAYER, "block tag inside the default content of a slot is resolved against the block context of the template "
+                         "that wrote the component tag: family renders differently from the flattened program", replay)
             else:
                 chk.fail("family-not-flattened", "a program written with extends/block/include renders differently from its hand-flattened program", replay)
         # tie the harness's flattening to Stock/Model.v flatten: per family, other tags abstracted
